@@ -26,3 +26,13 @@ Proof. vm_compute. reflexivity. Qed.
 Theorem declared_size_spec_samples :
   map declared_size_spec (firstn 3 size_samples) = [Some [49;48;48;48;48]; Some [49;48;48;48;48]; Some [49;48;48;48;48]].
 Proof. vm_compute. reflexivity. Qed.
+
+(** No demand where the reading cannot be sure where the path ends (second audit, C06-M1): a quoted pair or a quoted
+    local part may hold "> SIZE=1 " INSIDE the reverse-path; the patterns rightly see no SIZE parameter there. *)
+Definition no_demand_samples : list str :=
+  [[70; 82; 79; 77; 58; 60; 97; 92; 62; 32; 83; 73; 90; 69; 61; 49; 32; 64; 98; 62; 32; 88; 61; 49];
+   [70; 82; 79; 77; 58; 60; 34; 97; 62; 32; 83; 73; 90; 69; 61; 49; 32; 34; 64; 98; 46; 111; 114; 103; 62; 32; 88; 61; 53]].
+Theorem no_demand_inside_quoted_paths :
+  forallb (fun a => match declared_size_spec a with None => true | Some _ => false end) no_demand_samples = true /\
+  forallb (fun a => match mail_facts_of (fun _ => false) a with Some f => size_seen_ok a f | None => false end) no_demand_samples = true.
+Proof. vm_compute. split; reflexivity. Qed.
